@@ -1,4 +1,5 @@
 """C07 - a seeded run is reproducible."""
+import os
 import random as _pyrandom
 import numpy as np
 from .common import *          # noqa
@@ -122,6 +123,32 @@ def ob_two_runs(names, n, cycles, helpers, hook_draws=False):
     return f
 
 
+def ob_hash_order(n):
+    """string hashing is salted per interpreter process, so the iteration order of a set of non-numeric labels is an
+    environment choice the seed does not control: decoding a permutation must not depend on it. Two 'processes' = two
+    independent solver-chosen iteration orders; replay: real interpreters with PYTHONHASHSEED=0..3."""
+    items = ["delta", "alpha", "charlie", "bravo", "echo"][:n]
+
+    def f():
+        if sym.MODE == "replay":
+            import subprocess
+            import sys
+            code = ("import importlib;M=importlib.import_module('pyvolutionary.models');"
+                    f"v=M.PermutationVariable(name='p',items={items!r});print(v.decode(list(range({n}))))")
+            outs = {subprocess.run([sys.executable, "-c", code], capture_output=True, text=True,
+                                   env=dict(os.environ, PYTHONHASHSEED=str(h))).stdout for h in range(4)}
+            return OK if len(outs) == 1 else Failure("decoding-depends-on-the-hash-salt", outputs=sorted(outs))
+        with env(stubs.arbitrary_set_order_layer()):
+            decoded = []
+            for proc in ("A", "B"):
+                v = M.PermutationVariable(name="p", items=list(items))
+                decoded.append(v.decode(list(range(n))))
+            if decoded[0] != decoded[1]:
+                return Failure("decoding-depends-on-set-iteration-order", a=decoded[0], b=decoded[1])
+            return OK
+    return f
+
+
 def twin():
     """reachability: with *different* numpy streams the two runs may differ"""
     def f():
@@ -151,5 +178,7 @@ def obligations(tier):
         obs.append(Ob("two_runs[C,selection,n=3]", ob_two_runs(("C",), 3, 1, ("selection",)), 1800))
     if th:
         obs.append(Ob("two_runs[C,plain,n=2,cycles=2]", ob_two_runs(("C",), 2, 2, ()), 1800))
+    for n in (2, 3):
+        obs.append(Ob(f"hash_order[items={n}]", ob_hash_order(n), 300))
     obs.append(Ob("twin_vacuity", twin(), 60, expect_refuted=True))
     return obs
